@@ -315,6 +315,39 @@ impl Family for BulkyHeadersEndings {
     }
 }
 
+/// table and column names of every length 0..=700 (the table alone, the name alone, both): a
+/// private buffer size an implementation may introduce lies somewhere in that range
+struct NameLengthsDense;
+impl Family for NameLengthsDense {
+    fn name(&self) -> String {
+        "names-of-every-length".into()
+    }
+    fn len(&self) -> u64 {
+        701 * 3
+    }
+    fn run(&self, idx: u64, st: &mut Stats) -> Result<(), Violation> {
+        let d = digits(idx, &[701, 3]);
+        let l = d[0] as usize;
+        let (tl, nl) = match d[1] {
+            0 => (l, 5),
+            1 => (3, l),
+            _ => (l, l),
+        };
+        st.nontrivial += 1;
+        st.bump("names_of_every_length");
+        let mk = |n: usize, salt: usize| -> String { (0..n).map(|i| (b'a' + ((i + salt) % 26) as u8) as char).collect() };
+        let c = Arc::new(vec![
+            Column { table: mk(tl, 1), column: mk(nl, 2), coltype: ColumnType::MYSQL_TYPE_LONG, colflags: ColumnFlags::UNSIGNED_FLAG },
+            Column { table: "t".into(), column: "after".into(), coltype: ColumnType::MYSQL_TYPE_VAR_STRING, colflags: ColumnFlags::empty() },
+        ]);
+        run_meta(1, &c, &c, st)
+    }
+    fn describe(&self, idx: u64) -> J {
+        let d = digits(idx, &[701, 3]);
+        json!({"length": d[0], "applies_to": ["table", "column name", "both"][d[1] as usize]})
+    }
+}
+
 struct Names {
     lens: Vec<usize>,
 }
@@ -1027,7 +1060,7 @@ pub fn build(quick: bool) -> Check {
     Check {
         id: "C09",
         level: "model_checking",
-        rule: format!("column descriptors declared through start() and StatementMetaWriter::reply on the real run_on, decoded by refwire and by mysql_common's Column/StmtPacket: headers of 17..400 KB followed by eight kinds of response ending (rows, errors at once / after rows / behind finish_one, the same header again, writers dropped) in both protocols; table and column names of 2.8..16.7 MB (ten size pairs at which a definition mentioning a name once, twice or with its table crosses the packet limit); every column count 0..{} (and 65535 in thorough; resultset headers of 65536 and 70000 columns) with table names cycling A, tbl_b, A, \"\", multibyte; table/column name lengths {{0,1,250,251,252,65535,65536,70000}}^2 in ASCII and 2-byte UTF-8; lists of 70..4000 definitions totalling 100 KiB..400 KiB; all {} column types x all {} representable flag words; statement ids {{0,1,255,256,65535,65536,2^31,2^32-1}} x (parameters, columns) in {{0,1,2,250,251,1000}}^2. Histories: every sequence of <= 3 (thorough: 4) metadata-bearing exchanges on one connection over 40 events (text and binary resultset headers, chained headers, PREPARE replies reusing an id with other counts) built from 12 column lists that collide (same table+name concatenation split differently; lists differing only in flags, type, order or one name; the empty list); 17..2300 (thorough: ..66000) distinct column lists on one connection (plain, through PREPARE + EXECUTE, behind COM_FIELD_LIST, optionally behind a 5000-byte name), each declared a second time in another order; every sequence of <= 6 (thorough: 7) events over PREPARE (two ids, a re-prepare with another list), long data, EXECUTE answered with the declared or another list, CLOSE, COM_FIELD_LIST and a text resultset. Oracle: count, order, table, name, type, flags, id and both counts equal what was declared; EOF placement per the 4.1 protocol without DEPRECATE_EOF. Non-trivial = beyond the one-byte length class.", 1000, all_types().len(), nf),
+        rule: format!("column descriptors declared through start() and StatementMetaWriter::reply on the real run_on, decoded by refwire and by mysql_common's Column/StmtPacket: table and column names of every length 0..700; headers of 17..400 KB followed by eight kinds of response ending (rows, errors at once / after rows / behind finish_one, the same header again, writers dropped) in both protocols; table and column names of 2.8..16.7 MB (ten size pairs at which a definition mentioning a name once, twice or with its table crosses the packet limit); every column count 0..{} (and 65535 in thorough; resultset headers of 65536 and 70000 columns) with table names cycling A, tbl_b, A, \"\", multibyte; table/column name lengths {{0,1,250,251,252,65535,65536,70000}}^2 in ASCII and 2-byte UTF-8; lists of 70..4000 definitions totalling 100 KiB..400 KiB; all {} column types x all {} representable flag words; statement ids {{0,1,255,256,65535,65536,2^31,2^32-1}} x (parameters, columns) in {{0,1,2,250,251,1000}}^2. Histories: every sequence of <= 3 (thorough: 4) metadata-bearing exchanges on one connection over 40 events (text and binary resultset headers, chained headers, PREPARE replies reusing an id with other counts) built from 12 column lists that collide (same table+name concatenation split differently; lists differing only in flags, type, order or one name; the empty list); 17..2300 (thorough: ..66000) distinct column lists on one connection (plain, through PREPARE + EXECUTE, behind COM_FIELD_LIST, optionally behind a 5000-byte name), each declared a second time in another order; every sequence of <= 6 (thorough: 7) events over PREPARE (two ids, a re-prepare with another list), long data, EXECUTE answered with the declared or another list, CLOSE, COM_FIELD_LIST and a text resultset. Oracle: count, order, table, name, type, flags, id and both counts equal what was declared; EOF placement per the 4.1 protocol without DEPRECATE_EOF. Non-trivial = beyond the one-byte length class.", 1000, all_types().len(), nf),
         assumptions: vec!["ColumnFlags can only represent its defined bits; all representable words are covered".into()],
         bounds: json!({"max_columns": if quick {1000} else {65535}, "flag_words": nf}),
         exhaustive: true,
@@ -1037,6 +1070,7 @@ pub fn build(quick: bool) -> Check {
             Box::new(HugeHeaders),
             Box::new(Names { lens: vec![0, 1, 250, 251, 252, 65535, 65536, 70000] }),
             Box::new(NamesMb),
+            Box::new(NameLengthsDense),
             Box::new(BulkyHeadersEndings),
             Box::new(BulkyLists),
             Box::new(TypesFlags { flags }),
@@ -1053,6 +1087,6 @@ pub fn build(quick: bool) -> Check {
             Box::new(StmtLifecycles { depth: 6 }),
             Box::new(StmtLifecycles { depth: if quick { 2 } else { 7 } }),
         ],
-        required: vec!["bulky_headers_with_endings", "names_of_megabytes", "aftermath_recovered", "huge_headers", "many_shapes", "metadata_histories", "statement_lifecycle_histories", "more_than_250_columns", "names_longer_than_250", "type_flag_pairs", "wide_statement_ids", "bulky_lists"],
+        required: vec!["names_of_every_length", "bulky_headers_with_endings", "names_of_megabytes", "aftermath_recovered", "huge_headers", "many_shapes", "metadata_histories", "statement_lifecycle_histories", "more_than_250_columns", "names_longer_than_250", "type_flag_pairs", "wide_statement_ids", "bulky_lists"],
     }
 }
